@@ -1301,15 +1301,18 @@ def _calls_of_name(fnode, name, root=None):
 
 def _cancels_task(prog, fi, flow, e, at):
     """the expression whose `.cancel` is what callable expression e invokes: `t.cancel`, `lambda: t.cancel()`,
-    a nested def calling `t.cancel()`, functools.partial over these; else None"""
+    a nested def calling `t.cancel()`, functools.partial over these or over a module-level function / method that
+    cancels its (bound) argument; else None.  The expression returned lives in the creating scope."""
     v, pth = _single(flow.origins(e, at))
     if pth != () or not isinstance(v, ast.AST):
         return None
     if isinstance(v, ast.Attribute) and v.attr == "cancel":
         return v.value
     cb = K.resolve_callable(prog, fi, v)
-    if cb is not None and cb.closure and not cb.free_params():
+    if cb is not None and not cb.free_params():
         calls = [c for c in calls_in(cb.fnode) if isinstance(c.func, ast.Attribute) and c.func.attr == "cancel" and not c.args]
+        # Callable_.outer answers for a non-closure only through bound parameters, so a name of a foreign scope is
+        # never mistaken for a local of the creating function
         if len(calls) == 1 and isinstance(calls[0].func.value, ast.Name) and cb.outer(calls[0].func.value.id) is not None:
             always = True
             if not isinstance(cb.fnode, ast.Lambda):
@@ -1320,33 +1323,63 @@ def _cancels_task(prog, fi, flow, e, at):
     return None
 
 
+def _callee_name(call):
+    """last component of the called name, also behind a call chain: `asyncio.get_running_loop().create_task`"""
+    f = call.func
+    return f.attr if isinstance(f, ast.Attribute) else f.id if isinstance(f, ast.Name) else None
+
+
+def _runs_coroutine(prog, fi, flow, co, at, param):
+    """Does the coroutine object `co` (the argument of create_task / ensure_future, evaluated at node `at`) run the
+    coroutine held in parameter `param` of fi?  Either it IS that parameter (through locals), or it is the activation
+    of a coroutine function -- nested def closing over the parameter, nested def / module-level function / method /
+    functools.partial receiving it as an argument (positional or keyword) -- whose body awaits it (kit:
+    invocation + awaited_values; the callee's own locals and a further delegating coroutine function are followed).
+    Where the callee is defined and what it is called do not matter; which object its `await` denotes does."""
+    for cv, cp in flow.origins(co, at):
+        if cp != ():
+            return False
+        if isinstance(cv, ast.Call):
+            inv = K.invocation(prog, fi, cv)
+            if inv is None:
+                return False
+            site = flow.site(cv, at)
+            # an argument is evaluated where the coroutine object is created; a free variable of a nested coroutine
+            # function when the task runs, i.e. (fi is synchronous up to its exit) with the bindings at fi's exit
+            if not any(_is_param_value(flow, o, flow.cfg.exit if late else site, param) for o, late in K.awaited_values(prog, fi, inv)):
+                return False
+        elif not (isinstance(cv, ast.Name) and _is_param_value(flow, cv, at, param)):
+            return False
+    return True
+
+
 def _e_task_cancel(ctx):
     prog = ctx.prog
     fi = prog.func("pipe.run_driving_pipe")
     p = params(fi)
     ctx.need(len(p) >= 2 and not writes_to_name(fi.node, p[0]) and not writes_to_name(fi.node, p[1]), "run_driving_pipe signature changed")
+    ctx.need(not fi.is_async and not any(isinstance(n, (ast.Await, ast.Yield, ast.YieldFrom)) for n in walk_no_nested(fi.node)), "run_driving_pipe is not a plain synchronous function")
     cfg = cfg_of(fi)
     flow = K.Flow(prog, fi, cfg)
-    regs = [(c, b) for c, b in find("%s.on_interest_end($f)" % p[0], fi.node)]
+    cbname = (params(prog.func("pipe.Pipe.on_interest_end")) or ["callback"])[0]
+    regs = []
+    for c in calls_in(fi.node):
+        if isinstance(c.func, ast.Attribute) and c.func.attr == "on_interest_end" and _rn(cfg, c) and _is_param_value(flow, c.func.value, _rn(cfg, c)[0], p[0]):
+            f_ = _kw(c, cbname, 0)
+            if f_ is not None:
+                regs.append((c, f_))
     ok = False
     node = fi.node
-    for c, b in regs:
+    for c, f_ in regs:
         cn = _n1(ctx, cfg, c, "on_interest_end call")
         node = c
-        t = _cancels_task(prog, fi, flow, b["f"], cn)
+        t = _cancels_task(prog, fi, flow, f_, cn)
         if t is None:
             continue
         tv, tp = _single(flow.origins(t, cfg.exit if not _rn(cfg, t) else cn))
-        if tp == () and isinstance(tv, ast.Call) and (chain(tv.func) or "").split(".")[-1] in ("create_task", "ensure_future") and tv.args:
-            co = tv.args[0]
-            awaited = False
-            if isinstance(co, ast.Call):
-                w = K.resolve_callable(prog, fi, co.func)
-                if w is not None and isinstance(w.fnode, ast.AsyncFunctionDef):
-                    awaited = any(isinstance(a, ast.Await) and isinstance(a.value, ast.Name) and isinstance(w.outer(a.value.id), ast.Name) and w.outer(a.value.id).id == p[1] for a in walk_no_nested(w.fnode))
-            else:
-                awaited = _is_param_value(flow, co, flow.site(tv, cn), p[1])
-            if awaited:
+        if tp == () and isinstance(tv, ast.Call) and _callee_name(tv) in ("create_task", "ensure_future"):
+            co = _kw(tv, "coro" if _callee_name(tv) == "create_task" else "coro_or_future", 0)
+            if co is not None and _runs_coroutine(prog, fi, flow, co, flow.site(tv, cn), p[1]):
                 ok = cfg.must_pass(cfg.entry, {cn})
     ctx.ob("run_driving_pipe cancels the task that awaits the render coroutine when interest in the pipe ends", ok, fi, node, construct=None if regs else "run_driving_pipe")
     # error_to_message forwards loss of interest from the requester's pipe to the pipe the task is bound to
@@ -1743,6 +1776,9 @@ R.seed("C08.e", F_TM, "            (_, stop) = self.incoming_requests.pop(key)\n
 R.seed("C08.e", F_MM, "            self._backlogs[message.remote].append((message, messageerror_monitor))", "            self._backlogs[message.remote].append((message, None))", "monitor lost while the message waits in the backlog")
 R.seed("C08.e", F_MM, "                next_message, messageerror_monitor = self._backlogs[remote].pop(0)\n", "                messageerror_monitor, next_message = self._backlogs[remote].pop(0)\n", "message and monitor swapped when leaving the backlog")
 R.seed("C08.e", F_PIPE, "    pipe.on_interest_end(task.cancel)\n", "    pipe.on_interest_end(lambda: None)\n", "interest end no longer cancels the render task")
+R.seed("C08.e", F_PIPE, "            await coroutine\n", "            await asyncio.sleep(0)\n", "the task that is cancelled no longer runs the render coroutine")
+R.seed("C08.e", F_PIPE, "    async def wrapped():\n", "    async def wrapped(coroutine=None):\n", "the awaited name is the wrapper's own (unfilled) parameter, not the render coroutine")
+R.seed("C08.e", F_PIPE, "        wrapped(),\n", "        asyncio.sleep(0),\n", "the cancelled task is not the one created from the wrapper")
 R.seed("C08.f", F_PROTO, "        if self._trigger.done():\n            # we don't care", "        if not self._trigger.done():\n            # we don't care", "a pending future is replaced (the loop waits on the old one for ever), a done one is resolved again")
 R.seed("C08.f", F_IF, "                response = servobs._trigger.result()\n                servobs._trigger = asyncio.get_running_loop().create_future()\n", "                response = servobs._trigger.result()\n", "trigger future never re-armed")
 R.seed("C08.c", F_RES, "        def _cancel(self=self, obs=serverobservation):\n            self._observations.remove(serverobservation)", "        def _cancel(self=self, obs=serverobservation):\n            self._observations.remove(request)", "callback removes another object")
